@@ -223,7 +223,27 @@ func (g *scenGen) assets() {
 	g.classifiers = []M{{"uuid": UUID4(r), "name": "Booking", "type": "wit", "intents": []string{"book_flight", "book_hotel"}}}
 	g.optins = []M{{"uuid": UUID4(r), "name": "Jokes"}}
 	g.resthooks = []M{{"slug": "new-registration", "subscribers": []string{"http://localhost/?cmd=success"}}}
+	// a template with every kind of component: media header, texts, and the three kinds of buttons (which become quick
+	// replies of the preview), several placeholders per component
+	promoComps := func(lang string) []M {
+		return []M{
+			{"name": "header", "type": "header/image", "content": "{{1}}", "variables": M{"1": 0}},
+			{"name": "body", "type": "body/text", "content": "[" + lang + "] {{1}} and {{2}} and again {{1}}", "variables": M{"1": 1, "2": 2}},
+			{"name": "footer", "type": "footer/text", "content": "bye {{1}}", "variables": M{"1": 2}},
+			{"name": "button.0", "type": "button/quick_reply", "content": "{{1}}", "variables": M{"1": 3}},
+			{"name": "button.1", "type": "button/url", "content": "http://example.com/?ref={{1}}&again={{2}}", "variables": M{"1": 4, "2": 1}},
+			{"name": "button.2", "type": "button/phone_number", "content": "+12065551212", "variables": M{}},
+		}
+	}
+	promoVars := []M{{"type": "image"}, {"type": "text"}, {"type": "text"}, {"type": "text"}, {"type": "text"}}
 	g.tpls = []M{{
+		"uuid": UUID4(r), "name": "promo",
+		"translations": []M{
+			{"channel": ref(g.chanOr(0)), "locale": "eng-US", "components": promoComps("eng"), "variables": promoVars},
+			{"channel": ref(g.chanOr(1)), "locale": "eng", "components": promoComps("eng"), "variables": promoVars},
+			{"channel": ref(g.chanOr(0)), "locale": "spa", "components": promoComps("spa"), "variables": promoVars},
+		},
+	}, {
 		"uuid": UUID4(r), "name": "affirmation",
 		"translations": []M{
 			{"channel": ref(g.chanOr(0)), "locale": "eng", "components": []M{{"name": "body", "type": "body/text", "content": "Hi {{1}}, are you still {{2}}?", "variables": M{"1": 0, "2": 1}}}, "variables": []M{{"type": "text"}, {"type": "text"}}},
@@ -317,6 +337,9 @@ func (g *scenGen) tpl() string {
 		return Template(r, ExprOpts{Deterministic: true, Hostile: true, MaxDepth: 2, PlainStrings: true})
 	case 1:
 		if g.o.LongTexts {
+			if r.Chance(0.3) {
+				return ClusterString(r, fw.Pick(r, []int{1, 2, 3, 5, 63, 64, 65, 639, 640, 641, 700}))
+			}
 			return LongString(fw.Pick(r, []int{63, 64, 65, 639, 640, 641, 700}), fw.Pick(r, []int{62, 63, 64, 638, 639, 640}))
 		}
 		return "plain text " + fw.Pick(r, StringPool[:20])
@@ -804,7 +827,7 @@ func (g *scenGen) action(ftype string, flowIdx int, loc M) M {
 		if r.Chance(0.3) {
 			qrs := []string{"Yes", fw.Pick(r, []string{"No", "@contact.name", "", "@(1/0)"})}
 			if g.o.LongTexts && r.Chance(0.5) {
-				qrs = append(qrs, LongString(fw.Pick(r, []int{63, 64, 65, 100}), 63))
+				qrs = append(qrs, LongString(fw.Pick(r, []int{63, 64, 65, 100}), 63), ClusterString(r, fw.Pick(r, []int{63, 64, 65, 66})))
 			}
 			a["quick_replies"] = qrs
 			g.translate(loc, u, "quick_replies", qrs, func() string { return fw.Pick(r, []string{"Si", "Non", "@contact.name"}) })
@@ -813,8 +836,19 @@ func (g *scenGen) action(ftype string, flowIdx int, loc M) M {
 			a["all_urns"] = true
 		}
 		if r.Chance(0.15) {
-			a["template"] = g.aref(g.tpls[0])
+			a["template"] = g.aref(fw.Pick(r, g.tpls))
 			tv := []string{g.tpl(), "@fields.age"}
+			if r.Chance(0.6) {
+				// 0-6 values: media, texts that contain a placeholder themselves, texts beyond the quick reply length
+				vals := []func() string{g.tpl, func() string {
+					return fw.Pick(r, []string{"image/jpeg:http://x.io/a.jpg", "@fields.age", "{{2}}", "{{1}} {{2}}", "@contact.name", "", "x", "video/mp4:http://x.io/v.mp4",
+						LongString(fw.Pick(r, []int{63, 64, 65, 70, 640}), fw.Pick(r, []int{62, 63, 64})), ClusterString(r, fw.Pick(r, []int{63, 64, 65, 66}))})
+				}}
+				tv = tv[:0]
+				for i := r.Range(0, 6); i > 0; i-- {
+					tv = append(tv, fw.Pick(r, vals)())
+				}
+			}
 			a["template_variables"] = tv
 			g.translate(loc, u, "template_variables", tv, g.tpl)
 		}
@@ -1120,6 +1154,10 @@ func (g *scenGen) msg(urnsOfContact []string) M {
 	text := fw.Pick(r, msgTexts)
 	if g.o.LongTexts && r.Chance(0.3) {
 		text = LongString(fw.Pick(r, []int{640, 641, 1000, 10001}), fw.Pick(r, []int{639, 640, 9999}))
+		if r.Chance(0.35) {
+			// input whose code points come in clusters: whatever is cut from it (result value / input, field value) is cut inside one
+			text = ClusterString(r, fw.Pick(r, []int{1, 2, 3, 4, 6, 10, 640, 641, 645, 3000}))
+		}
 	} else if r.Chance(0.1) {
 		text = AnyString(r)
 	}
